@@ -68,8 +68,7 @@ GET_ENS = [
     ('load_error_has_resolve_root',
      (MISS % (KEY, KEY)) + ' ==> (' + (UNDER % (KEY, 'old(self).chain@.push(%s)' % KEY)) +
      ' matches Err(e) ==> (out matches Err(e2) && e2 matches PdfError::Shared { source } && *source == e && root(e2) == root(e)))'),
-    ('cached_error_is_shared',
-     '!old(self).chain@.contains(%s) ==> (old(self).storage.cache.cached(%s) matches Some(Err(ce)) ==> (out matches Err(e2) && e2 matches PdfError::Shared { source } && *source == *ce))' % (KEY, KEY)),
+    # (`cached_error_is_shared` removed: a cached error is re-decided for the requested type since /repo a2f701f; see units/cachetransp)
 ]
 K2 = 'key'
 GUARDED_ENS = [
@@ -79,8 +78,6 @@ GUARDED_ENS = [
     ('load_error_has_resolve_root',
      'old(self).storage.cache.cached(key) is None ==> (' + (UNDER % ('key', 'old(self).chain@')) +
      ' matches Err(e) ==> (out matches Err(e2) && e2 matches PdfError::Shared { source } && *source == e))'),
-    ('cached_error_is_shared',
-     'old(self).storage.cache.cached(key) matches Some(Err(ce)) ==> (out matches Err(e2) && e2 matches PdfError::Shared { source } && *source == *ce)'),
 ]
 
 SIG_GET = [sig('fn get<T: Object+DataSize>(&self,', 'fn get<T: Object>(&mut self,')]
